@@ -186,6 +186,9 @@ func (m *maxInflightWrapper) SetLimit(acquireResult *AcquireResult) bool {
 			if inflight < localMax {
 				inflight = localMax
 			}
+			if inflight > m.max {
+				inflight = m.max
+			}
 			klog.V(2).Infof("[global maxInflight] cluster=%q resize flowcontrol=%s max=%v for error: %v",
 				m.fcc.cluster, m.fcc.name, inflight, result.Error)
 			m.FlowControl.Resize(uint32(inflight), 0)
@@ -213,9 +216,11 @@ func (m *maxInflightWrapper) SetLimit(acquireResult *AcquireResult) bool {
 		atomic.StoreInt32(&m.acquiredMaxInflight, limit)
 		m.FlowControl.Resize(uint32(limit), 0)
 	} else {
+		// the threshold of a rejected request is server provided too
+		limit := clampInt32(result.Limit, 0, m.max)
 		atomic.StoreInt32(&m.overLimited, 1)
-		atomic.StoreInt32(&m.acquiredMaxInflight, result.Limit)
-		m.FlowControl.Resize(uint32(result.Limit), 0)
+		atomic.StoreInt32(&m.acquiredMaxInflight, limit)
+		m.FlowControl.Resize(uint32(limit), 0)
 	}
 
 	atomic.StoreInt64(&m.lastAcquireTime, acquireResult.requestTime)
@@ -388,7 +393,15 @@ func (m *tokenBucketWrapper) SetLimit(acquireResult *AcquireResult) bool {
 			klog.V(2).Infof("[global tokenBucket] cluster=%q resize flowcontrol=%s qps=%v requestID=%v for error: %v",
 				m.fcc.cluster, m.fcc.name, lastQPS, acquireResult.requestTime, result.Error)
 
-			m.FlowControl.Resize(uint32(lastQPS), uint32(lastQPS))
+			// the measured rate includes bursts, it must not lift the limit above the global one
+			qps, burst := uint32(lastQPS), uint32(lastQPS)
+			if qps > m.qps {
+				qps = m.qps
+			}
+			if burst > m.burst {
+				burst = m.burst
+			}
+			m.FlowControl.Resize(qps, burst)
 			atomic.StoreUint32(&m.serverUnavailable, 1)
 		}
 		m.lock.Unlock()
@@ -435,7 +448,7 @@ func (m *tokenBucketWrapper) Resize(qps uint32, burst uint32) bool {
 		m.tokenBatch = GlobalTokenBucketBatchAcquireMin
 	}
 	m.qps = qps
-	m.burst = qps
+	m.burst = burst
 	if atomic.LoadUint32(&m.serverUnavailable) == 0 {
 		return m.FlowControl.Resize(qps, burst)
 	}
